@@ -529,6 +529,26 @@ func ruleWrapWriter(p *Prog, r *Report) {
 			r.Bad(rule, pr[0], "arguments forwarded to "+pr[1], p.Pos(ec.Pos()), "the paired encoder is not called on the same receiver with the same arguments in order")
 		}
 		res := resultsOf(ec)
+		// the write may be delegated to an unexported helper that writes its bytes argument to its writer argument exactly once
+		if len(writes) == 0 && otherWriterUses == 1 {
+			if ok, why := p.delegatedWrite(fn, wparam, res[0], errResult(ec)); ok {
+				r.OK(rule, pr[0], "Write operand", pos, why)
+				if fn.Signature.Results().Len() == 2 {
+					okRet := true
+					eachInstr(fn, func(b *ssa.BasicBlock, in ssa.Instruction) {
+						if ret, ok := in.(*ssa.Return); ok && ret.Results[0] != res[0] {
+							okRet = false
+						}
+					})
+					if okRet {
+						r.OK(rule, pr[0], "Raw result", pos, "every return hands back the encoder's bytes")
+					} else {
+						r.Bad(rule, pr[0], "Raw result", pos, "a return does not hand back the bytes that were written")
+					}
+				}
+				continue
+			}
+		}
 		if len(writes) != 1 || otherWriterUses != 0 {
 			r.Bad(rule, pr[0], "exactly one Write", pos, fmt.Sprintf("found %d Write calls and %d other uses of the writer", len(writes), otherWriterUses))
 		} else {
@@ -1035,4 +1055,104 @@ func sortedKeys(m map[string]int) []string {
 	}
 	sort.Strings(out)
 	return out
+}
+
+// delegatedWrite: fn passes (writer, bytes) to an unexported module helper, under the encoder's err == nil edge, and returns its
+// error; the helper invokes Write on its writer parameter exactly once with its bytes parameter and returns that error.
+func (p *Prog) delegatedWrite(fn *ssa.Function, w *ssa.Parameter, bytesV ssa.Value, encErr ssa.Value) (bool, string) {
+	var call *ssa.Call
+	eachInstr(fn, func(b *ssa.BasicBlock, in ssa.Instruction) {
+		c, ok := in.(*ssa.Call)
+		if !ok {
+			return
+		}
+		g := staticCallee(&c.Call)
+		if g == nil || !p.InModule(g) || p.Exported(g) {
+			return
+		}
+		hasW, hasB := false, false
+		for _, a := range c.Call.Args {
+			if a == ssa.Value(w) {
+				hasW = true
+			}
+			if bytesV != nil && a == bytesV {
+				hasB = true
+			}
+		}
+		if hasW && hasB {
+			call = c
+		}
+	})
+	if call == nil {
+		return false, ""
+	}
+	g := staticCallee(&call.Call)
+	wi, bi := -1, -1
+	for i, a := range call.Call.Args {
+		if a == ssa.Value(w) {
+			wi = i
+		}
+		if a == bytesV {
+			bi = i
+		}
+	}
+	var writes []ssa.CallInstruction
+	other := 0
+	eachInstr(g, func(b *ssa.BasicBlock, in ssa.Instruction) {
+		ci, ok := in.(ssa.CallInstruction)
+		if !ok {
+			return
+		}
+		cm := ci.Common()
+		if cm.IsInvoke() && cm.Value == ssa.Value(g.Params[wi]) {
+			if cm.Method.Name() == "Write" {
+				writes = append(writes, ci)
+			} else {
+				other++
+			}
+		}
+	})
+	if len(writes) != 1 || other != 0 {
+		return false, ""
+	}
+	wr := writes[0]
+	if len(wr.Common().Args) != 1 || wr.Common().Args[0] != ssa.Value(g.Params[bi]) {
+		return false, ""
+	}
+	if reachableFromSuccs(wr.Block())[wr.Block()] {
+		return false, ""
+	}
+	// the helper returns the Write error; fn returns the helper's result
+	ev := errResult(wr)
+	okErr := false
+	eachInstr(g, func(b *ssa.BasicBlock, in ssa.Instruction) {
+		if ret, ok := in.(*ssa.Return); ok {
+			for _, op := range ret.Results {
+				if ev != nil && sameThroughPhi(op, ev) {
+					okErr = true
+				}
+			}
+		}
+	})
+	if !okErr {
+		return false, ""
+	}
+	if !errCheckedBefore(encErr, call.Block()) {
+		return false, ""
+	}
+	// fn returns what the helper returns
+	okRet := false
+	eachInstr(fn, func(b *ssa.BasicBlock, in ssa.Instruction) {
+		if ret, ok := in.(*ssa.Return); ok {
+			for _, op := range ret.Results {
+				if sameThroughPhi(op, call) {
+					okRet = true
+				}
+			}
+		}
+	})
+	if !okRet {
+		return false, ""
+	}
+	return true, "delegated to " + p.Name(g) + ", which writes exactly its bytes argument once and returns the Write error"
 }
